@@ -1,4 +1,5 @@
 \* exhaustive, repaired design: chains of <= 4 blocks, <= 2 reverts
+\* measured: same size as RpcRead_thorough.cfg
 CONSTANTS
   MaxLen = 4
   MaxReverts = 2
